@@ -48,6 +48,10 @@ impl<'a> Question<'a> {
     }
     open spec fn wf_in_rdata() -> bool { false }
     open spec fn wf_nocomp() -> bool { false }
+    open spec fn wf_eqv(&self, other: &Self) -> bool {
+        self.qname.lv() == other.qname.lv() && self.qtype == other.qtype && self.qclass == other.qclass && self.unicast_response == other.unicast_response
+    }
+    proof fn lemma_det(data: Seq<u8>, p: int, v1: &Self, e1: int, v2: &Self, e2: int) {}
     proof fn lemma_rt(&self, pre: Seq<u8>) {
         let d = pre + self.wf_enc();
         lemma_name_roundtrip(pre, self.qname.lv(), self.fixed_enc());
@@ -163,27 +167,67 @@ impl<'a> ResourceRecord<'a> {
     }
     open spec fn wf_in_rdata() -> bool { false }
     open spec fn wf_nocomp() -> bool { false }
+    open spec fn wf_eqv(&self, other: &Self) -> bool {
+        self.name.lv() == other.name.lv() && self.class == other.class && self.ttl == other.ttl && self.cache_flush == other.cache_flush
+        && self.rdata.wf_eqv(&other.rdata)
+    }
+    proof fn lemma_det(data: Seq<u8>, p: int, v1: &Self, e1: int, v2: &Self, e2: int) {
+        let q = p + inplace_len(data, p);
+        RData::lemma_det(data, q, &v1.rdata, e1, &v2.rdata, e2);
+    }
     proof fn lemma_rt(&self, pre: Seq<u8>) {
         let lv = self.name.lv();
         let rd = self.rdata.wf_enc();
         let d = pre + self.wf_enc();
         let q = pre.len() as int + wl(lv) + 1;
-        lemma_run_len(lv);
-        lemma_name_roundtrip(pre, lv, self.fixed_enc() + enc16(rd.len() as u16) + rd);
-        assert(d =~= pre + name_enc(lv) + (self.fixed_enc() + enc16(rd.len() as u16) + rd));
-        assert(d.subrange(q, q + 8) =~= self.fixed_enc()) by { lemma_enc_be_len(self.ttl as nat, 4); }
-        lemma_rr_fixed(self, d, q);
-        lemma_be16_enc16(rd.len() as u16);
-        assert(d[q + 8] == enc16(rd.len() as u16)[0] && d[q + 9] == enc16(rd.len() as u16)[1]);
         let p2 = d.len() as int;
-        assert(p2 == q + 10 + rd.len());
-        self.rdata.lemma_rt(d.subrange(0, q + 10));
-        assert(d.subrange(0, p2) =~= d);
-        assert(d =~= d.subrange(0, q + 10) + rd);
+        assert(self.fixed_enc().len() == 8) by { lemma_enc_be_len(self.ttl as nat, 4); }
+        lemma_rr_layout(pre, lv, self.fixed_enc(), rd);
+        assert(d =~= pre + name_enc(lv) + self.fixed_enc() + enc16(rd.len() as u16) + rd);
+        lemma_rr_fixed(self, d, q);
+        let d0 = d.subrange(0, q + 10);
+        self.rdata.lemma_rt(d0);
+        assert(d0 + rd == d);
+        assert(d0.len() == q + 10);
+        assert(RData::wf_cdec(d, q + 10, &self.rdata, p2));
         if !(self.rdata is Empty) && !(self.rdata is OPT) { lemma_cdec_is_dec(&self.rdata, d, q + 10, p2); }
+        let p = pre.len() as int;
+        assert(p + inplace_len(d, p) == q);
+        assert(dec_labels(d, p, 0) == Some(self.name.lv()));
+        assert(p2 == q + 10 + be16(d[q + 8], d[q + 9]));
+        assert(self.ttl as nat == be_nat(d.subrange(q + 4, q + 8)));
+        assert(rdata_type(&self.rdata) == type_of_code(be16(d[q], d[q + 1])));
+        assert(d.subrange(0, p2) =~= d);
+        assert(RData::wf_dec(d, q, &self.rdata, p2));
     }
 """)
     c.append(rel, """verus!{
+/// layout of an uncompressed record after any prefix: owner name decodes in place, then 8 fixed octets, RDLENGTH, RDATA
+pub proof fn lemma_rr_layout(pre: Seq<u8>, lv: Seq<Seq<u8>>, f: Seq<u8>, rd: Seq<u8>)
+    requires name_ok(lv), f.len() == 8, rd.len() <= 65535,
+    ensures ({
+        let d = pre + name_enc(lv) + f + enc16(rd.len() as u16) + rd;
+        let q = pre.len() as int + wl(lv) + 1;
+        &&& dec_labels(d, pre.len() as int, 0) == Some(lv)
+        &&& inplace_len(d, pre.len() as int) == wl(lv) + 1
+        &&& wl(lv) >= 0
+        &&& d.len() == q + 10 + rd.len()
+        &&& d.subrange(q, q + 8) == f
+        &&& be16(d[q + 8], d[q + 9]) == rd.len()
+        &&& d == d.subrange(0, q + 10) + rd
+    }),
+{
+    let d = pre + name_enc(lv) + f + enc16(rd.len() as u16) + rd;
+    let q = pre.len() as int + wl(lv) + 1;
+    lemma_run_len(lv);
+    lemma_name_roundtrip(pre, lv, f + enc16(rd.len() as u16) + rd);
+    assert(d =~= pre + name_enc(lv) + (f + enc16(rd.len() as u16) + rd));
+    lemma_be16_enc16(rd.len() as u16);
+    assert(enc16(rd.len() as u16).len() == 2);
+    assert(d.subrange(q, q + 8) =~= f);
+    assert(d[q + 8] == enc16(rd.len() as u16)[0] && d[q + 9] == enc16(rd.len() as u16)[1]);
+    assert(d =~= d.subrange(0, q + 10) + rd);
+}
 /// the eight fixed octets TYPE CLASS TTL of a record, found at data[q..q+8], read back as the fields they were written from
 pub proof fn lemma_rr_fixed(rr: &ResourceRecord, data: Seq<u8>, q: int)
     requires 0 <= q, q + 8 <= data.len(), data.subrange(q, q + 8) == rr.fixed_enc(), rr.wf_canon(),
@@ -265,6 +309,7 @@ pub proof fn lemma_rr_fixed(rr: &ResourceRecord, data: Seq<u8>, q: int)
     c.append(rel, """verus!{
 /// the record-level composition for the compressing writer: owner name (s1), fixed part (s2), zeroed RDLENGTH (s3),
 /// RDATA (s4), RDLENGTH patched by seeking back (s5)
+#[verifier::rlimit(30)]
 pub proof fn lemma_rr_compressed<'a>(rr: &ResourceRecord<'a>, map: Map<&'a [Label<'a>], usize>, t1: Map<&'a [Label<'a>], usize>, m0: Seq<u8>, s1: Seq<u8>, s2: Seq<u8>,
                                      s3: Seq<u8>, s4: Seq<u8>, s5: Seq<u8>)
     requires
